@@ -198,6 +198,10 @@ func (pb *PrimaryBlock) UnmarshalCbor(r io.Reader) error {
 		pb.CRCType = CRCType(crcT)
 	}
 
+	if hasCrcField := blockLen == 9 || blockLen == 11; hasCrcField != pb.HasCRC() {
+		return fmt.Errorf("array of %d elements contradicts CRC type %v", blockLen, pb.CRCType)
+	}
+
 	eids := []*EndpointID{&pb.Destination, &pb.SourceNode, &pb.ReportTo}
 	for _, eid := range eids {
 		if err := cboring.Unmarshal(eid, r); err != nil {
